@@ -150,7 +150,8 @@ def intake(v, naija, q):
                               {"case": name, "how": how, "source_bytes": len(src.encode()), "rc": p.returncode, "library_st": e["st"], "errors": nerr,
                                "source_head": src[:80], "binary_stdout_tail": out[-2000:]})
     wrap = sorted(c for c in counts_seen if c and c % 256 == 0)
-    if not wrap:
+    if not wrap and not v.findings:
+        # (only a tool error when nothing else was found: a tree that miscounts errors must get its violations reported)
         raise common.ToolError("no intake case produced a multiple of 256 error diagnostics (counts seen: %s)" % sorted(counts_seen))
     return {"model_states": m.distinct, "model_transitions": m.generated, "refuted_slips": ["per-chunk validation", "error count as status"],
             "stdin_read_size": CHUNK, "stdin_read_size_measured": measured, "cases": len(cases), "runs": runs, "agree": agree, "read_boundaries_hit": hit, "error_counts_seen": sorted(counts_seen),
